@@ -160,7 +160,7 @@ def f3(ctx):
         yield Ob(key_of("C10-F3", b.path, "fails-iff-none"), ok, "InsufficientSpace exactly when find_prev_and_next(size, <=) returned None", b.loc())
 
 
-@rule("C10-F4", "C10", 2, "sibling agreement: validate_segment(offset, size) is true exactly where try_new_segment(offset, size) returns Some - same conditions in the same order")
+@rule("C10-F4", "C10", 2, "sibling agreement: validate_segment(offset, size) is true exactly where try_new_segment(offset, size) returns Some - the accept conditions imply each other")
 def f4(ctx):
     for fl in FLAVOURS:
         bv = ctx.facts.one(r"^%s::Arena::validate_segment$" % fl)
@@ -168,20 +168,58 @@ def f4(ctx):
         ev1, r1 = ctx.eval(bv, no_inline=(r"increase_discarded$",))
         ev2, r2 = ctx.eval(bt, no_inline=(r"increase_discarded$",))
 
-        def norm(t):
-            s = show(canon(t))
-            return re.sub(r"#[\w@/]+", "#", s)
-        c1 = [norm(c) for x, c in sorted(r1.conds.items()) if not r1.log or True]
-        c2 = [norm(c) for x, c in sorted(r2.conds.items())]
-        # accept paths
+        def strip(t):
+            # the same location loaded at two program points of two functions is the same value for this comparison
+            def f(x):
+                if tag(x) == "load":            # ("load", site, target)
+                    return ("load", term_map(x[2], f) if isinstance(x[2], (tuple, Lin)) else x[2])
+                if tag(x) == "call" and len(x) > 3:   # ("call", callee, args, site)
+                    return ("call", x[1], tuple(term_map(a, f) if isinstance(a, (tuple, Lin)) else a for a in x[2]))
+                return None
+            return term_map(canon(t), f)
+
         acc1 = [r for r in r1.log if r["kind"] == "ret0" and not r["chain"] and r["value"] == const(1)]
         acc2 = [r for r in r2.log if r["kind"] == "ret0" and not r["chain"] and tag(r["value"]) == "variant" and r["value"][2] == "Some"]
-        ok = sorted(c1) == sorted(c2) and len(acc1) == 1 and len(acc2) == 1
+        ok = len(acc1) == 1 and len(acc2) == 1
+        why = "one accept return each"
         if ok:
-            f1_ = sorted(norm(f) for f in ctx.facts_of(ev1, acc1[0]))
-            f2_ = sorted(norm(f) for f in ctx.facts_of(ev2, acc2[0]))
-            ok = f1_ == f2_
-        yield Ob(key_of("C10-F4", "%s::validate_segment|try_new_segment" % fl, "same-conditions"), ok, "both decide by %s" % c1, bv.loc(), {"validate": c1, "try_new": c2})
+            # the accept return is reached by a conjunctive chain (every branch on the way has exactly one successor that can still accept), so the
+            # dominating guards are the exact accept condition
+            for b_, acc in ((bv, acc1[0]), (bt, acc2[0])):
+                for x in b_.reachable:
+                    t = b_.blocks[x]["term"]
+                    if t["k"] == "switch" and acc["bb"] in b_.reach(x):
+                        tg = set([bb for _, bb in t["arms"]] + [t["otherwise"]])
+                        if len([y for y in tg if y == acc["bb"] or acc["bb"] in b_.reach(y)]) != 1:
+                            ok = False
+                            why = "%s: the accept return is reachable over two edges of one branch (%s) - not a conjunction" % (b_.name, b_.loc(x))
+        if ok:
+            f1_ = set(strip(f) for f in ctx.facts_of(ev1, acc1[0]))
+            f2_ = set(strip(f) for f in ctx.facts_of(ev2, acc2[0]))
+
+            def implies(A, B):
+                o = Order(A)
+                miss = []
+                for f in B:
+                    if f in A:
+                        continue
+                    if f[0] == "cmp" and f[1] in ("Le", "Lt", "Ge", "Gt", "Eq"):
+                        a, b2 = f[2], f[3]
+                        good = {"Le": lambda: o.le(a, b2), "Lt": lambda: o.le(add(a, const(1)), b2), "Ge": lambda: o.le(b2, a), "Gt": lambda: o.le(add(b2, const(1)), a),
+                                "Eq": lambda: o.eq(a, b2)}[f[1]]()
+                    elif f[0] == "cmp" and f[1] == "Ne":
+                        good = o.le(add(f[2], const(1)), f[3]) or o.le(add(f[3], const(1)), f[2])
+                    elif f[0] == "discr" and tag(f[1]) == "call" and re.search(r"checked_(sub|add)$", f[1][1]):
+                        good = True    # carried by the comparison it implies (sym.implied_facts)
+                    else:
+                        good = False
+                    if not good:
+                        miss.append(repr(f)[:160])
+                return miss
+            m12, m21 = implies(f1_, f2_), implies(f2_, f1_)
+            ok = not m12 and not m21
+            why = "accept conditions imply each other" if ok else "validate_segment's accept condition does not give %s; try_new_segment's does not give %s" % (m12[:2], m21[:2])
+        yield Ob(key_of("C10-F4", "%s::validate_segment|try_new_segment" % fl, "same-conditions"), ok, why, bv.loc())
 
 
 @rule("C10-F6", "C10", 6, "Freelist::None: the allocation bodies return InsufficientSpace without calling a pop body (freed space is never reused)")
